@@ -597,7 +597,7 @@ func main() {
 	r.Assume("character strings and byte strings are compared by content; the coarse type class of result columns is compared, not the exact type")
 	r.Assume("datetime values are written as quoted 'YYYY-MM-DD hh:mm:ss' literals (what a bound DATETIME becomes), binary values as X'..' literals")
 
-	n := r.N(900, 20000)
+	n := r.N(900, 12000)
 	r.Parallel("case", n, func(i int) { runCase(r, i) })
 	pinned(r)
 
